@@ -165,7 +165,7 @@ def fold_accumulators(ps):
     """Normalise  `T acc = init; loop: acc (op)= x; ...; *dst = acc;`  to the statements on *dst itself:
     `*dst = init; loop: *dst (op)= x`.  Applies when a store's value is exactly a scalar local that is only declared and
     accumulated (no other use between), and the final store is unconditional and outside loops."""
-    out = list(ps)
+    out = _fold_sums(list(ps))
     changed = True
     while changed:
         changed = False
@@ -212,6 +212,74 @@ def fold_accumulators(ps):
             out = new
             changed = True
             break
+    return out
+
+
+def _fold_sums(ps):
+    """`T a1 = i1, a2 = i2; loops: a1 += x; a2 -= y; ...; *dst = E + a1 - a2;`  ->  `*dst = E + i1 - i2; loops: *dst += x; *dst += y`
+    (accumulators -- also the value returned by an inlined helper -- that enter an unconditional final assignment linearly
+    with coefficient +1 or -1 next to other terms E; E is a term, so moving it is harmless).  The plain `*dst = acc` form is
+    handled by fold_accumulators itself."""
+    out = list(ps)
+    for k, p in enumerate(out):
+        if p["kind"] != "store" or p["op"] != "=" or p["loops"] or p["guards"]:
+            continue
+        val = p["val"]
+        if not isinstance(val, tuple) or not val or val[0] != "poly":
+            continue
+        accs = {}
+        for mono, c in sym.poly_items(val):
+            if len(mono) == 1 and mono[0][0] == "var" and len(mono[0]) > 2 and c in (1, -1):
+                accs[mono[0]] = c
+        chosen = {}
+        for V, c in accs.items():
+            if any(len(m) > 1 and V in m for m, _ in sym.poly_items(val)):
+                continue
+            vid = V[2]
+            loc = [(j, q) for j, q in enumerate(out) if q["kind"] == "local" and q.get("id") == vid and j < k]
+            if not loc or loc[0][1]["op"] != "decl" or any(q["op"] not in ("decl", "+=", "-=") for _, q in loc) or \
+                    loc[0][1]["loops"] or loc[0][1]["guards"] or len([1 for _, q in loc if q["op"] == "decl"]) != 1:
+                continue
+            used = False
+            for j, q in enumerate(out):
+                if j == k or (j, q) in loc:
+                    continue
+                if q["kind"] == "return" and q.get("val") == V and len(q.get("stack") or []) > len(p.get("stack") or []):
+                    continue      # the value an inlined helper hands back: that is how it reaches the assignment
+                terms = [q.get("val")] + list(q.get("args") or []) + [q.get("lv")]
+                if any(t is not None and isinstance(t, tuple) and sym.contains(t, V) for t in terms):
+                    used = True
+            if not used:
+                chosen[V] = (c, loc)
+        if not chosen:
+            continue
+        E = val
+        for V, (c, loc) in chosen.items():
+            E = sym.add(sym.sub(E, sym.mul(I(c), V)), sym.mul(I(c), loc[0][1]["val"]))
+        first = min(loc[0][0] for _, loc in chosen.values())
+        drop = {loc[0][0] for _, loc in chosen.values()} | {k}
+        repl = {}
+        for V, (c, loc) in chosen.items():
+            for j, q in loc[1:]:
+                r = dict(q)
+                r["kind"] = "store"
+                r["lv"] = p["lv"]
+                sign = (1 if q["op"] == "+=" else -1) * c
+                r["op"] = "+=" if sign > 0 else "-="
+                r["folded_from"] = q.get("name")
+                r.setdefault("t", p.get("t", ""))
+                repl[j] = r
+        new = []
+        for j, q in enumerate(out):
+            if j == first:
+                r = dict(p)
+                r["val"] = E
+                r["line"] = p["line"]
+                new.append(r)
+            if j in drop:
+                continue
+            new.append(repl.get(j, q))
+        return _fold_sums(new)
     return out
 
 
